@@ -257,6 +257,16 @@ def expected_fields(t, spec, flavour, tol=None, noise=2e-3):
             # an extremum that lies on a rounding boundary up to floating-point error (685.4999999999998 here, 685.5 in fontTools' solver) may round either way
             if b is not None and any(abs((v % 1) - 0.5) < 1e-6 for v in b):
                 NOISY.add(n)
+        # ... and so may a bearing: with a source extremum exactly on a half (a component offset of 0.5 under a rotation, thorough run seed 7) the stored
+        # bound is round(x) while the bearing is round(origin - x) - both correctly rounded from the exact value, one unit apart
+        try:
+            gi_src = R.glyph_index(spec)
+            for n in order:
+                if n in gi_src and n not in NOISY:
+                    if any(abs((p_[k_] % 1) - 0.5) < 1e-6 for pts_, _ in R.resolve(gi_src, n) for p_ in pts_ for k_ in (0, 1)):
+                        NOISY.add(n)
+        except Exception:
+            pass
     return order, boxes, exact
 
 
